@@ -51,6 +51,11 @@ CHECKS = {
     text="Kernel-checked: calc_hash's xor/subtract formula is the signed reading of the CRC for every 32-bit value (and CRC-32 of every byte string is below 2^32); for every name and every output mode the printed HASH token (HASH(\"..\"), decimal or $HEX) has the value signed-CRC(name); the same for STR over ASCII strings (shift/or packing = big-endian base 256); format_int output reads back as the integer for EVERY integer (Coq's standard decimal/hexadecimal printers and parsers); every enum member's name resolves to its number within its enumeration (finite, regenerated). The six functions' shapes and constants are re-read from the source each run. Model functions are compared with the implementation on generated strings/integers, and compact vs verbose outputs of repository, generated and sweep programs are compared token-wise.",
     note="Trusted: Coq kernel; CRC32.v (vs zlib each run); ic10.py token valuation; translator hashfmt.py. Strings are modelled by their UTF-8 bytes (the compact/verbose choice for non-ASCII names is not compared: either choice has the same value). One open known finding (bare enum names used as plain values).",
     design="4 C08"),
+ "C09": dict(
+    category="proof", technique="Coq: finite-forall over the regenerated emission-site inventory and operator tables against the IC10 signature table; integer-literal round trip for all integers; wf_program => machine never reports unknown instruction / wrong operand count (all oracles); version-note model. Grammar + literal read-back check of every emitted line",
+    text="Kernel-checked: every instruction-emission site with a literal opcode (inventory regenerated from the sources) names an existing instruction with the right operand count; every operator-table opcode exists except 'neg' (refuted, known finding); integer literals read back exactly for EVERY integer; a statically well-formed program never stops with 'unknown instruction' or 'wrong operand count' for any oracle and fuel; the version note changes at most one line and a changed line stays below 89 characters. Every line of every compile (repository, corpus, generated programs x option vectors) is checked against the signature table, forbidden spellings and the values exported by the hook (exact for integers up to 2^53, 16 significant digits otherwise, exact rationals); float formatting is read back over all decades.",
+    note="Trusted: Sig.v (hand-written IC10 signatures) and the literal grammar in ic10.py; hook values; CPython's %.16g taken as correctly rounded (checked by read-back, not modelled). Three open known findings pinned by stored references (neg opcode, empty operand for an unassigned name, unvalidated logic-type name).",
+    design="4 C09"),
 }
 
 NOT_YET = {}
